@@ -7,3 +7,4 @@ pub mod model;
 pub mod doubles;
 pub mod props;
 pub mod real;
+pub mod chk;
